@@ -1,6 +1,8 @@
 import Driver.Util
 import Model.World
 import Model.WorldSpec
+import Model.Memo
+import Model.WorldFiles
 import Generated.Colors
 namespace Driver
 open Lean Model.World
@@ -199,11 +201,80 @@ def opOracle (j : Json) : R Json := do
     | some v => asList asObsOut v
   return Json.mkObj [("violations", jList jClause (violations o ++ seedViolations o.fresh others))]
 
+/-! ### histories with file-system events (`Model/WorldFiles.lean`) -/
+
+def asPathRef (j : Json) : R PathRef :=
+  match optFld j "abs", optFld j "rel" with
+  | some d, _ => do return .abs (← asNat d) (← natF j "n")
+  | _, some n => do return .rel (← asNat n)
+  | _, _ => throw "path: expected {abs, n} | {rel}"
+
+def asFsEv (j : Json) : R FsEv := do
+  match ← strF j "ev" with
+  | "write" => return .write (← natF j "d") (← natF j "n") (← natF j "c")
+  | "delete" => return .delete (← natF j "d") (← natF j "n")
+  | "rename" => return .rename (← natF j "d") (← natF j "n") (← natF j "d2") (← natF j "n2")
+  | "chdir" => return .chdir (← natF j "d")
+  | "touch" => return .touch (← natF j "d") (← natF j "n")
+  | e => throw s!"fs event {e}"
+
+def asFOp (j : Json) : R FOp := do
+  match ← strF j "op" with
+  | "ev" => return .ev (← asFsEv j)
+  | _ => return .op (← asOp j)
+
+def asFile (j : Json) : R ((Nat × Nat) × Content) := do
+  match ← asArr j with
+  | [d, n, c] => return ((← asNat d, ← asNat n), ← asNat c)
+  | _ => throw "file: expected [dir, name, content]"
+
+def asFs (j : Json) : R Fs := do
+  return { cwd := ← natF j "cwd", files := ← listF asFile j "files" }
+
+def jReads (r : List (Option Content)) : Json := jList (jOpt jNat) r
+
+def jFs (fs : Fs) : Json := Json.mkObj [
+  ("cwd", jNat fs.cwd),
+  ("files", jList (fun (e : (Nat × Nat) × Content) => Json.arr #[jNat e.1.1, jNat e.1.2, jNat e.2]) fs.files)]
+
+/-- op `c14_files`: a history of operations AND file-system events in the model of the code as it is (no store in
+front of the file reads), the target after it, the target in a fresh process in the file system reached; what a store
+keyed by the path as spelled / by the resolved path would have answered the target with (how sensitive the history
+is to that class of change) -/
+def opFiles (j : Json) : R Json := do
+  let heap ← listF (asEntry asObj) j "heap"
+  let frames ← listF (asEntry asFrame) j "frames"
+  let ops ← listF asFOp j "ops"
+  let target ← asCtor (← fld j "target")
+  let seed ← match optFld j "seed" with
+    | none => pure 0
+    | some v => asNat v
+  let fs₀ ← asFs (← fld j "fs")
+  let figs ← listF (asEntry (asList asPathRef)) j "figs"
+  let q : Paths := fun _ d =>
+    if d.kind = .figure then d.others.flatMap (fun i => (aget i figs).getD []) else []
+  let w₀ := fresh heap frames seed
+  let after := runF noStore q realTable (freshF w₀ fs₀) ops
+  let t := encodeCtorF noStore q realTable after target
+  let f := encodeCtorF noStore q realTable (freshF w₀ (fs₀.run (eventsF ops))) target
+  let tSpell := encodeCtorF spellingKey q realTable (runF spellingKey q realTable (freshF w₀ fs₀) ops) target
+  let tRes := encodeCtorF resolvedKey q realTable (runF resolvedKey q realTable (freshF w₀ fs₀) ops) target
+  return Json.mkObj [
+    ("trace", jList (jList jReads) (traceF noStore q realTable (freshF w₀ fs₀) ops)),
+    ("target", jReads t.2),
+    ("fresh", jReads f.2),
+    ("pure", Json.bool (decide (t = f))),
+    ("final", jFs after.fs),
+    ("files_changed", Json.bool ((eventsF ops).any (·.changesFiles))),
+    ("target_spelling_keyed_store", jReads tSpell.2),
+    ("target_resolved_keyed_store", jReads tRes.2)]
+
 end WorldImpl
 
 namespace World
 def ops : List (String × (Json → R Json)) :=
-  [("c14_world", WorldImpl.opWorld), ("c14_color_index", WorldImpl.opColorIndex), ("c14_oracle", WorldImpl.opOracle)]
+  [("c14_world", WorldImpl.opWorld), ("c14_color_index", WorldImpl.opColorIndex), ("c14_oracle", WorldImpl.opOracle),
+   ("c14_files", WorldImpl.opFiles)]
 end World
 
 end Driver
